@@ -26,6 +26,7 @@ func runC08(c *fw.Ctx) {
 	r82(c)
 	r83(c)
 	methodExprReceiver(c, "R8.4")
+	r85(c)
 }
 
 func r81(c *fw.Ctx) {
